@@ -155,8 +155,8 @@ PROPS["C03"] = {
     "assumptions": COMMON_ASSUMPTIONS,
 }
 PROPS["C06"] = {
-    "modules": ["C06", "C06b"],
-    "families": ["OF"], "ops": "api,apix,enc,prog,embed,embedw", "gen_deps": [],
+    "modules": ["C06", "C06b", "C06c"],
+    "families": ["OF"], "ops": "api,apix,enc,prog,embed,embedw,rtrip,rtparse,rtw", "gen_deps": [],
     "rule": ENC_RULE, "trivial_outputs": ["panic", "err"],
     "level_text": "Theorems: fill_exact / fill_length — the make(Len())+copy idiom returns exactly Len() bytes and, when the pieces fit, their concatenation plus zero padding (the general lemma every container theorem instantiates); all 30 match-payload kinds: size = encoding length and neither call modifies the value; match field and match: encoding length = reported size for any content, match size multiple of 8. Oracle: reported size before and after encoding = bytes produced, on every API-built value of every kind. Container theorems for actions / instructions / messages are pending (decided by oracle + correspondence).",
     "level_note": OF_NOTE,
@@ -188,7 +188,7 @@ PROPS["C08"] = {
 }
 
 PROPS["C09"] = {
-    "families": ["OF"], "ops": "pk,rtrip,rtx,dec", "gen_deps": ["protocol."],
+    "families": ["OF"], "ops": "pk,rtrip,rtx,dec", "gen_deps": ["protocol."], "modules": ["C09", "C09b"],
     "rule": "pk: packet headers written by an independent encoder (harness/cmd/ofvrun/of_switch.go, from the RFC layouts): VLAN tag over all (pcp, dei) and boundary/random vids, "
             "TCP data offset x 6 code bits, IPv6 fragment offset/M, IGMPv3 S/QRV, IGMPv1/2, IGMPv3 reports with group records and aux words, routing and hop-by-hop headers whose options fill "
             "them exactly, ICMP, ARP, whole Ethernet frames (tagged/untagged; IPv4/ICMP with all sub-byte fields, IPv4/UDP, ARP, IPv6 with hop-by-hop / fragment chains and ICMPv6 / UDP, "
@@ -230,7 +230,7 @@ PROPS["C05"] = {
 }
 
 PROPS["C04"] = {
-    "families": ["OF"], "ops": "sw,parse", "gen_deps": [], "modules": ["C04", "C04b"],
+    "families": ["OF"], "ops": "sw,parse,rtw", "gen_deps": [], "modules": ["C04", "C04b"],
     "rule": "sw: an INDEPENDENT encoder of switch-sent messages written from the OpenFlow 1.3 / Nicira / ONF-bundle specifications with a plain byte builder (harness/cmd/ofvrun/of_switch.go; no encoder of the library is used) produces 20 kinds: hello with version bitmaps, "
             "error, experimenter error, echo without and with payload, features reply, get-config reply, packet-in (random OXM matches of 18 field kinds with and without masks; Ethernet frames tagged/untagged carrying IPv4/ICMP with all sub-byte fields, IPv4/UDP, ARP, IPv6 with hop-by-hop and "
             "fragment headers and ICMPv6/UDP, unknown ethertype), flow-removed, port-status, multipart replies (description, flow stats with matches and instruction/action lists, aggregate, table, port, queue, port descriptions), barrier reply, Nicira TLV-table reply, ONF bundle-control reply — "
